@@ -113,7 +113,7 @@ var valueFocusTexts = map[string][]string{
 		" { list = [inh, ign, i] }", " { x = t }", " { x = true, y }", " { a = \"s\", b = f }", " { a = \"s\"\n  \n}", " {\n  second = inherit\n  \n  third = true\n}",
 		" { first = \"x\", \"sec", " { \"first\" = }", " { first = \"x\"  ,  }", " { plain = 1, (true ? null : \"fallback\") = 2, \"quoted\" = 3 }"},
 	"expr": {" tr", " true", " !tr", " !tru.", " tr && fa", " tr &&", " (tr)", " (tr", " \"${tr}\"", " \"a${tr}b\"", " \"${tr", " tr ? fa : tr", " x ? tr", " x ? tr : ", " [for k, v in tr : fa if tr]",
-		" {for k, v in tr : k => fa}", " var.v", " var.", " tags[]", " tags[tr]", " tags[\"x\"]", " f1(tr)", " f1(tr, )", " f1(tr,", " f1(", " f1( )", " fv2(\"a\", tr, fa)", " f0(tr)", " unknownfn(tr)", " f1(var.)", " f2(tr", " f1(f2(tr), t)", " f", " f1", " fb(tr)", " fb(tr, [tr, ])", " fb(true, [], fa", " fb(true, [], false, t)", " fb(, tr)", " fb(tr,\n  [f],\n  t\n)", " fo({ x = t })", " fo({ })", " fb(tr).", " fb(var.v.)", " null", " 42", " \"lit\"", " <<EOT\n${tr}\nEOT", " -1", " 1 + tr", " tr == fa", " x[tr].y", " x.*.y"},
+		" {for k, v in tr : k => fa}", " var.v", " var.", " tags[]", " tags[tr]", " tags[\"x\"]", " f1(tr)", " f1(tr, )", " f1(tr,", " f1(", " f1( )", " fv2(\"a\", tr, fa)", " f0(tr)", " unknownfn(tr)", " f1(var.)", " f2(tr", " f1(f2(tr), t)", " f", " f1", " fb(tr)", " fb(tr, [tr, ])", " fb(true, [], fa", " fb(true, [], false, t)", " fb(, tr)", " fb(tr,\n  [f],\n  t\n)", " fo({ x = t })", " fo({ })", " fb(tr).", " fb(var.v.)", " null", " 42", " \"lit\"", " <<EOT\n${tr}\nEOT", " -1", " 1 + tr", " tr == fa", " x[tr].y", " x.*.y", " tags[null]", " tags[true]", " var.v[1][\"k\"][null]", " tr ? tags[null] : fa"},
 }
 
 var valueFocusFamilies = map[string][]string{
